@@ -16,6 +16,19 @@ for v in ck.violations:
             v['replayed'] = c1 < c0 or (c1 != c0 and (c1 > w['ae']['leader_commit'] or c1 > upto))
         elif v['obligation'] == 'A2_reject_is_noop':
             v['replayed'] = (not resp.get('success')) and (rep['after']['log_length'] != rep['before']['log_length'] or rep['after']['commit_index'] != rep['before']['commit_index'])
+        elif v['obligation'] == 'A1_log_matches':
+            prev = w['ae']['prev_log_index']
+            et = w['ae']['entry_terms']
+            log1 = rep['after'].get('log', [])
+            log0 = rep['before'].get('log', [])
+            bad = False
+            if resp.get('success'):
+                bad = log1[:prev] != log0[:prev]
+                for j, t in enumerate(et):
+                    pos = prev + j
+                    if pos >= len(log1) or log1[pos] != [t, pos + 1]:
+                        bad = True
+            v['replayed'] = bad
         else:
             v['replayed'] = None
     elif w.get('handler') == 'request_vote':
